@@ -132,6 +132,8 @@ package slug
 //@   ensures C12.pack.close-errors: err == nil ==> isNil($tarCloseErr) && isNil($gzipCloseErr)
 //@   ensures C12.pack.noresult: err != nil ==> meta == nil
 
+// the path of the visited entry in the slug: what the ignore rules are applied to and what the header is named after
+//@ macro slugPath(): Rel(root, Replace(path, src, dst, 1))
 //@ func (*Packer).packWalkFn$1 -> (rerr)
 //@   opt propagate-errors
 // the switch default "unexpected file mode": checkFileMode has already returned for every mode that is
@@ -143,8 +145,8 @@ package slug
 //@   ghost $tarBody Int
 //@   ghost $tarNames (Array Int String)
 //@   closure-invariant C20.walk.meta: metaMatchesArchive(meta)
-//@   at-call (*archive/tar.Writer).WriteHeader C03.pack.excluded-never-written: !excl(ignoreRules, Rel(src, path)) && (modeDirBit(fileMode(info)) ==> !excl(ignoreRules, Rel(src, path) + "/"))
-//@   ensures C03.pack.prune-only-if-excluded: err == nil && rerr == filepath.SkipDir ==> modeDirBit(fileMode(info)) && excl(ignoreRules, Rel(src, path) + "/") && domin(ignoreRules, Rel(src, path) + "/")
+//@   at-call (*archive/tar.Writer).WriteHeader C03.pack.excluded-never-written: !excl(ignoreRules, slugPath()) && (modeDirBit(fileMode(info)) ==> !excl(ignoreRules, slugPath() + "/"))
+//@   ensures C03.pack.prune-only-if-excluded: err == nil && rerr == filepath.SkipDir ==> modeDirBit(fileMode(info)) && excl(ignoreRules, slugPath() + "/") && domin(ignoreRules, slugPath() + "/")
 //@   replay packSelfLoop@C19:
 //@   replay packMeta@C20:
 //@   replay packIgnore@C03:
@@ -170,7 +172,7 @@ package slug
 //@       && (a1.Typeflag == tar.TypeReg && !modeRegular(fileMode(info)) ==> modeSymlinkBit(fileMode(info)) && p.dereference && resolved != nil
 //@             && a1.Size == fileSize(resolved.info) && a1.Mode == imod(fileMode(resolved.info), 512))
 //@       && (a1.Typeflag == tar.TypeDir || a1.Typeflag == tar.TypeReg || a1.Typeflag == tar.TypeSymlink)
-//@   ensures C02.body-iff-regular: err == nil && rerr == nil && modeRegular(fileMode(info)) && !excl(ignoreRules, Rel(src, path)) && Rel(src, path) != "." && Rel(root, Replace(path, src, dst, 1)) != "." ==> $copied
+//@   ensures C02.body-iff-regular: err == nil && rerr == nil && modeRegular(fileMode(info)) && !excl(ignoreRules, slugPath()) && Rel(src, path) != "." && Rel(root, Replace(path, src, dst, 1)) != "." ==> $copied
 //@   ghost $copied Bool = false
 //@   at-call os.Open C05.body-from-inside: segUnder(Clean(a0), Clean(src))
 //@   ensures C05.external-needs-deref: $rejected && !p.dereference && !AbsErr(root) ==> dyntype(rerr, "*slug.IllegalSlugError")
